@@ -1,12 +1,14 @@
 #!/bin/sh
-# usage: tools/refverify.sh <wt-id> <n> [check-id...]  — applies behaviour-preserving refactoring n of /tmp/wt-<id>/SEED,
-# runs the pinned suite and then the given checks (default: all 19, quick tier) on the refactored tree: every one must exit 0.
-id="$1"; n="$2"; shift 2
-wt=/tmp/wt-$id
+# usage: tools/refverify.sh <refactoring-id> [check-id...]  — applies the behaviour-preserving refactoring
+# /verif/refactorings/<id>/patch.diff to a scratch worktree of /repo's HEAD (/tmp/wt-port), runs the pinned suite and then
+# the given checks (default: all 19, quick tier) on the refactored tree: none may print a VIOLATION line.
+id="$1"; shift
+wt=/tmp/wt-port
 export GOFLAGS=-mod=mod GOPROXY=off
+[ -d $wt ] || git -C /repo worktree add --detach $wt HEAD >/dev/null 2>&1
 cd $wt || exit 9
-git checkout -q -- .; git checkout -q --detach $(git -C /repo rev-parse HEAD) || exit 9
-git apply SEED/refactor$n.diff || { echo "REFACTOR DOES NOT APPLY"; exit 9; }
+git checkout -q -- .; git clean -fdq src cmd; git checkout -q --detach $(git -C /repo rev-parse HEAD) || exit 9
+git apply /verif/refactorings/$id/patch.diff || { echo "REFACTOR DOES NOT APPLY"; exit 9; }
 echo "--- build + full suite (must pass):"; go build ./... 2>&1 | tail -3; go test -vet=off -count=1 ./src/... ./cmd/... 2>&1 | grep -v "^ok\|no test files" | head -5; echo "(suite done)"
 checks="$@"; [ -z "$checks" ] && checks="C01 C02 C03 C04 C05 C06 C07 C08 C09 C10 C11 C12 C13 C14 C15 C16 C17 C18 C19"
 for c in $checks; do VERIF_REPO=$wt /verif/check $c quick 2>&1 | grep -E "VIOLATION|INCONCLUSIVE|exit=|rror" | cut -c1-300 | head -6; done
